@@ -79,9 +79,26 @@ def benign_table(res):
     return "\n".join(out)
 
 
+def bounds_table():
+    th = json.load(open(f"{V}/tools/thorough_runs.json")) if os.path.exists(f"{V}/tools/thorough_runs.json") else {"checks": {}}
+    out = ["| id | what the quick tier enumerates (the check's own coverage statement) | quick: evaluations / distinct / wall | thorough: evaluations / wall / RSS |", "|---|---|---|---|"]
+    for i in range(1, 21):
+        c = "C%02d" % i
+        ep = f"{V}/evidence/{c}.json"
+        if not os.path.exists(ep):
+            continue
+        e = json.load(open(ep))
+        cov = e.get("coverage", {})
+        rule = cov.get("rule", "")
+        t = th["checks"].get(c)
+        tcol = f"{t['evaluations']:,} / {t['wall_s']:.0f} s / {t.get('rss_mb', 0):,} MB" + ("" if t.get("exhaustive", True) else " (capped)") if t else "-"
+        out.append(f"| {c} | {esc(rule)} | {cov.get('evaluations', 0):,} / {cov.get('distinct_nontrivial', 0):,} / {e.get('wall_s', 0):.0f} s | {tcol} |")
+    return "\n".join(out)
+
+
 def main():
     res = latest_results()
-    tables = {"findings": findings_table(), "candidates": candidates_table(res), "seeds": seeds_table(res), "benign": benign_table(res)}
+    tables = {"findings": findings_table(), "candidates": candidates_table(res), "seeds": seeds_table(res), "benign": benign_table(res), "bounds": bounds_table()}
     p = f"{V}/DESIGN.md"
     s = open(p).read()
     for k, t in tables.items():
